@@ -49,7 +49,18 @@ pub fn classify(r: &Result<Multiboot2Header, LoadError>) -> Spec {
 // @assume architecture word holds a defined value (0 or 4) — the property's precondition
 #[cfg_attr(kani, kani::proof)]
 pub fn c10_load_le64() {
-    const N: usize = 64;
+    load_le::<64>();
+}
+
+// @harness props=C10 tier=thorough panic=forbid timeout=1800
+// @encodes as c10_load_le64
+// @bound 136-byte object, declared length symbolic in 0..=136
+#[cfg_attr(kani, kani::proof)]
+pub fn c10_load_le136() {
+    load_le::<136>();
+}
+
+fn load_le<const N: usize>() {
     let b = Aligned::<N>::any();
     let magic = le32(&b.0, 0);
     let arch = le32(&b.0, 4);
